@@ -10,6 +10,10 @@ Streams (all driven against the real `dissect.cobaltstrike.client.HttpBeaconClie
   gh     registrations, then get_handlers(k) repeatedly (+ aliasing check on the returned list)
   hist   a history on ONE client object (assign sleeptime/jitter, run() again, get_sleep_time, get_handlers, loop
          iterations, registrations, identity reads, interleaved): every answer must be the stateless one
+  g-id / g-idr / g-run / g-gh / g-loop   every case of these streams also run through the definitions TRANSLATED from the source of
+         client.py (Gen/PyClient.lean, tools/gen/py_client.py, tools/py2leanu.py) against the same real code
+  g-arg  the translated beacon-id / info slices on arguments of other kinds (None, bool, str, bytes, list, ints as names)
+  pyu    the operations of the translator's run-time library added for client.py (Model/PyU_T19.lean) against CPython
 """
 from __future__ import annotations
 
@@ -28,10 +32,14 @@ from dissect.cobaltstrike import client as _client
 from dissect.cobaltstrike.c2 import encrypt_metadata
 
 from . import common as C
+from . import pyuval_t19
 
 ID = "C19"
 DRIVER = "drv_c19"
 GEN = ["commands"]
+GEN += ["py_client"]
+EXTRA_PROP_FILES = ["Props/C19Gen.lean"]
+G_STREAMS = ("id", "idr", "run", "gh", "loop")
 STREAMS = {
     "id": {"relevant": True, "desc": "HttpBeaconClient.run(dry_run=True, beacon_id=x).beacon_id"},
     "idr": {"relevant": True, "desc": "run(dry_run=True, beacon_id=None) with random.getrandbits(32) scripted"},
@@ -44,8 +52,20 @@ STREAMS = {
     "hist": {"relevant": True, "desc": "a history on ONE client object: attribute assignments, repeated run(), get_sleep_time, get_handlers, "
                                        "loop iterations and registrations interleaved; every answer must be the stateless one"},
     "gh": {"relevant": True, "desc": "get_handlers(k) repeatedly: returned lists, no aliasing, final task_map"},
+    "g-id": {"relevant": False, "desc": "the beacon-id slice of run() TRANSLATED from its source (Gen/PyClient.lean normalise_beacon_id) vs run(), on every case of id"},
+    "g-idr": {"relevant": False, "desc": "translated normalise_beacon_id with beacon_id=None vs run(), on every case of idr"},
+    "g-run": {"relevant": False, "desc": "translated normalise_beacon_id + session_keys + make_info vs run(), on every case of run"},
+    "g-gh": {"relevant": False, "desc": "translated register_task / handle / catch_all / get_handlers vs the methods, on every case of gh"},
+    "g-loop": {"relevant": False, "desc": "translated registration code + dispatch slice of _beacon_loop vs the real loop, on every case of loop"},
+    "g-arg": {"relevant": False, "desc": "translated normalise_beacon_id / make_info vs run() on arguments of other kinds"},
+    "pyu": {"relevant": False, "desc": "the operations of the translator's run-time library added for client.py (PyU_T19.lean: decode(errors='ignore'), "
+                                       "int.to_bytes, str.replace, IntEnum call / name / truth, attribute assignment) vs CPython on random operands"},
 }
 TRUSTED = [
+    "tools/py2leanu.py + lean/CsVerif/Model/PyU.lean + PyU_T19.lean (untyped translator and its run-time library) and tools/gen/py_client.py "
+    "(slicing of run() / _beacon_loop into synthetic functions): Props/C19Gen.lean proves the translated definitions equal to the hand-written "
+    "model; the g-* streams run them against the real code on every id / idr / run / gh / loop case, the pyu stream runs the new PyU operations "
+    "against CPython",
     "tools/harness/c19.py generators/adapters/oracle; line protocol parsing in lean/CsVerif/Driver/C19.lean; tools/gen/commands.py",
     "modelled, not verified: CPython str.encode / bytes.decode(errors='ignore') (streams enc/dec), int %, & on negative ints, "
     "dict insertion order, list aliasing (explicit heap), getattr instance-before-class, IntEnum lookup/aliases (generated table)",
@@ -79,6 +99,31 @@ def bconfig():
         _bconfig = _beacon.BeaconConfig.from_bytes(data)
         assert _bconfig.protocol == "http"
     return _bconfig
+
+
+_bconfig_alt = None
+
+
+def bconfig_alt():
+    """the sample configuration with a NON-ZERO configured jitter (37) and another sleep time (45000): run(..., sleeptime=s, jitter=j)
+    with explicit arguments - including 0 - must use the arguments, whatever the configuration says"""
+    global _bconfig_alt
+    if _bconfig_alt is None:
+        import struct as _struct
+        with zipfile.ZipFile(REPO / "tests" / "beacons" / (_BEACON + ".zip")) as zf:
+            data = zf.read(_BEACON, pwd=b"dissect.cobaltstrike")
+        base = _beacon.BeaconConfig.from_bytes(data)
+        blk = bytes(base.config_block)
+        jit = _struct.pack(">HHH", 5, 1, 2)
+        slp = _struct.pack(">HHH", 3, 2, 4)
+        i, k = blk.find(jit), blk.find(slp)
+        assert i >= 0 and k >= 0 and blk.count(jit) == 1 and blk.count(slp) == 1
+        blk = blk[:i + 6] + _struct.pack(">H", 37) + blk[i + 8:]
+        blk = blk[:k + 6] + _struct.pack(">I", 45000) + blk[k + 10:]
+        _bconfig_alt = _beacon.BeaconConfig(blk)
+        assert _bconfig_alt.settings["SETTING_JITTER"] == 37 and _bconfig_alt.settings["SETTING_SLEEPTIME"] == 45000
+        assert _bconfig_alt.protocol == "http"
+    return _bconfig_alt
 
 
 BC = _client.BeaconCommand
@@ -254,7 +299,43 @@ FIXED = [
 ]
 
 
+ARG_IDS = [None, True, False, 0, 1, 7, -1, 2 ** 31, 2 ** 32 + 5, "7", "", "abc", b"7", b"", [], [1], (), (2,), {}, {1: 2}]
+ARG_NAMES = ["pc", "", "ü€", 5, -3, True, False, 0, "a" * 60, "\t", 2 ** 70]
+
+
 def gen(tier, rng, shard, nshards):
+    """every id / idr / run / gh / loop case is also run through the definitions translated from the source of client.py"""
+    for stream, line in gen0(tier, rng, shard, nshards):
+        yield stream, line
+        if stream in G_STREAMS:
+            yield "g-" + stream, "g" + line
+    k = 0
+    for v in ARG_IDS:
+        k += 1
+        if k % nshards == shard:
+            yield "g-arg", "gidv " + pyuval_t19.pshow(v)
+    for _ in range((2000 if tier == "thorough" else 300) // nshards):
+        if rng.random() < 0.5:
+            v = pyuval_t19.value(rng)
+            if isinstance(v, (str, bytes)) and (b"%" in v if isinstance(v, bytes) else "%" in v):
+                continue          # `%` as string formatting: not modelled
+            try:
+                yield "g-arg", "gidv " + pyuval_t19.pshow(v)
+            except RuntimeError:
+                continue
+        else:
+            names = [rng.choice(ARG_NAMES) if rng.random() < 0.6 else rand_name(rng, 12) for _ in range(3)]
+            try:
+                yield "g-arg", "ginfov " + " ".join(pyuval_t19.pshow(n) for n in names)
+            except RuntimeError:
+                continue
+    for _ in range((60000 if tier == "thorough" else 8000) // nshards):
+        line = pyuval_t19.case(rng)
+        if line is not None:
+            yield "pyu", line
+
+
+def gen0(tier, rng, shard, nshards):
     thorough = tier == "thorough"
     k = 0
 
@@ -621,7 +702,9 @@ def run_history(steps):
         elif c0 == "R":
             f = st.split("/")
             try:
-                cl.run(bconfig(), dry_run=True, beacon_id=int(f[1]), sleeptime=Fraction(int(f[2])), jitter=int(f[3]),
+                import zlib as _zlib
+                cl.run(bconfig_alt() if _zlib.crc32(st.encode()) % 2 else bconfig(), dry_run=True, beacon_id=int(f[1]),
+                       sleeptime=Fraction(int(f[2])), jitter=int(f[3]),
                        computer=undot(f[4]), user=undot(f[5]), process=undot(f[6]))
                 outs.append(".")
             except ValueError:
@@ -832,6 +915,25 @@ def rand_history(rng):
 
 
 def impl(stream, line):
+    if stream == "pyu":
+        return pyuval_t19.run(line)
+    if stream == "g-arg":
+        w = line.split()
+        cl = _client.HttpBeaconClient()
+        if w[0] == "gidv":
+            v = pyuval_t19.pparse(w[1])
+            orig = _client.random.getrandbits
+            _client.random.getrandbits = lambda k: 6 if k == 32 else orig(k)
+            try:
+                cl.run(bconfig(), dry_run=True, beacon_id=v, user="u", computer="c", process="p")
+            finally:
+                _client.random.getrandbits = orig
+            return "ok " + pyuval_t19.pshow(cl.beacon_id)
+        names = [pyuval_t19.pparse(t) for t in w[1:4]]
+        cl.run(bconfig(), dry_run=True, beacon_id=4, computer=names[0], user=names[1], process=names[2])
+        return "ok " + pyuval_t19.pshow(cl.metadata.info)
+    if stream.startswith("g-"):
+        return impl(stream[2:], line[1:])       # the same real code
     w = line.split()
     if stream == "id":
         cl = _client.HttpBeaconClient()
@@ -976,6 +1078,8 @@ def expected_dispatch(silent, regs, tasks):
 
 
 def oracle(stream, line, out):
+    if stream.startswith("g-") or stream == "pyu":
+        return None
     w = line.split()
     if stream == "id":
         x = int(w[1])
@@ -1062,6 +1166,10 @@ def oracle(stream, line, out):
 def nontrivial(stream, line, out):
     if out.startswith("exc "):
         return False
+    if stream in ("pyu", "g-arg"):
+        return True
+    if stream.startswith("g-"):
+        return nontrivial(stream[2:], line[1:], out)
     w = line.split()
     if stream in ("id", "idr"):
         return True
@@ -1085,6 +1193,12 @@ def nontrivial(stream, line, out):
 
 
 def shrink(stream, line):
+    if stream in ("pyu", "g-arg"):
+        return
+    if stream.startswith("g-"):
+        for cand in shrink(stream[2:], line[1:]):
+            yield "g" + cand
+        return
     w = line.split(" ")
     if stream in ("loop", "lspec", "gh"):
         off = 2 if stream != "gh" else 1
